@@ -931,9 +931,19 @@ func runC09(r *Run, rng *Rng, tier string) error {
 			patchBuild09(r, g.Fork())
 		}
 	}
+	// replayable file-set families (harness/c09_extra.go): patches with metadata.namespace on cluster-scoped targets,
+	// annotation patches above a namespace directive
+	nFile := 120
+	if tier == "thorough" {
+		nFile = 1500
+	}
+	for i := 0; i < nFile; i++ {
+		runFileCase09(r, "cluster_patch_build", genClusterPatchCase09(rng.Fork()))
+		runFileCase09(r, "anno_patch_build", genAnnoPatchCase09(rng.Fork()))
+	}
 	// custom-schema builds last: each of them resets the process-wide OpenAPI state before and after itself, which
 	// would make every later build that needs the built-in schema parse it again
-	nSchema := 36
+	nSchema := 48
 	if tier == "thorough" {
 		nSchema = 400
 	}
@@ -969,10 +979,24 @@ func replayC09(path string) (bool, string, error) {
 		return false, "", err
 	}
 	var wrap struct {
-		Build  *c09Tree       `json:"build"`
-		Filter *c09FilterCase `json:"filter"`
+		Build    *c09Tree       `json:"build"`
+		Filter   *c09FilterCase `json:"filter"`
+		FileCase *c09FileCase   `json:"file_case"`
 	}
 	_ = json.Unmarshal(rp.Case, &wrap)
+	if fc := wrap.FileCase; fc != nil && len(fc.Files) > 0 {
+		cls, msg, outs, bad := evalFileCase09(fc)
+		var b strings.Builder
+		fmt.Fprintf(&b, "class=%s msg=%q\n", cls, msg)
+		for _, o := range outs {
+			s, _ := o.String()
+			fmt.Fprintf(&b, "---\n%s", s)
+		}
+		for _, v := range bad {
+			fmt.Fprintf(&b, "LAW %s class=%s: %s\n", v[0], v[1], v[2])
+		}
+		return len(bad) > 0, b.String(), nil
+	}
 	t := wrap.Build
 	if t == nil && wrap.Filter == nil {
 		var tt c09Tree
